@@ -4,7 +4,7 @@
    This file only restates the property theorems; proofs are in frame/*Proofs.v. *)
 From Coq Require Import List NArith ZArith Bool.
 From JV Require Import Bytes FrameBase FrameBaseProofs FrameSpec Split SplitProofs Hdr HdrProofs
-  JsonScan RawJson RawJsonProofs.
+  HdrSpec HdrSpecProofs JsonScan RawJson RawJsonProofs.
 Import ListNotations.
 Local Open Scope N_scope.
 
@@ -91,6 +91,35 @@ Theorem c12_hdr_exhausted : forall c p want st,
   Hdr.recv c p want st [] = Err EEOF st [] /\ Hdr.recv_all c p want st [] = [IErr EEOF].
 Proof. exact hdr_exhausted. Qed.
 Print Assumptions c12_hdr_exhausted.
+
+(* soundness with respect to the reference grammar HdrSpec (written from the documentation): a
+   record returned by Recv - alone or with a content-type error - is the payload of a frame
+   at the front of the stream and [rest] is what follows the frame: nothing fabricated,
+   reordered or shortened; hence a missing, negative or non-decimal Content-Length (no frame)
+   can only give an error.  Content type: StrictHeader must match; Header/LSP may be absent;
+   a mismatch is reported WITH the record. *)
+Theorem c12_hdr_sound : forall p want st s,
+  st <= buf_bound ->
+  match Hdr.recv cfg_fixed p want st s with
+  | Ok r _ rest => exists ct, HdrSpec.frame s ct r rest /\ (ct = want \/ (p = Optional /\ ct = []))
+  | OkWithErr r e _ rest =>
+      exists ct, HdrSpec.frame s ct r rest /\ e = EContentTypeMismatch ct /\ ct <> want /\ (p = Optional -> ct <> [])
+  | _ => True
+  end.
+Proof. exact hdr_sound. Qed.
+Print Assumptions c12_hdr_sound.
+
+(* header rules: every frame of the grammar (field names in any case, unknown fields, duplicates
+   with the last one winning, LF or CR LF line ends, white space around values, signed
+   non-negative length) is accepted, with the documented content-type policy *)
+Theorem c12_header_rules : forall p want st s ct r rest,
+  st <= buf_bound -> HdrSpec.frame s ct r rest ->
+  exists st', st' <= buf_bound /\
+    Hdr.recv cfg_fixed p want st s =
+    if beq ct want || match p with Optional => is_nil ct | Strict => false end
+    then Ok r st' rest else OkWithErr r (EContentTypeMismatch ct) st' rest.
+Proof. exact hdr_complete. Qed.
+Print Assumptions c12_header_rules.
 
 (* ---- RawJSON (partial: see RawJsonProofs.v) ---- *)
 
